@@ -953,7 +953,46 @@ func zeroOneField(m sdk.Msg, signerField string, r *Rng) string {
 	return t.Field(i).Name
 }
 
+// forgedSimulation: nobody needs the authority's key to have the node *simulate* a message that names the authority
+// (gas estimation skips signature verification and runs the real handlers on a branch that is thrown away). Such a
+// run is not a message of the authority: afterwards the node must behave exactly as before. Differential, no model:
+// each admin message is executed on a throw-away branch before and after the forged simulation of the same message.
+func (s *Sim) forgedSimulation(r *Rng) {
+	e := s.Env
+	auth := e.Authority.Addr.String()
+	msgs := []sdk.Msg{
+		&executortypes.MsgPauseAction{Signer: auth, ActionId: "ACTION_FEE"},
+		&executortypes.MsgUnpauseAction{Signer: auth, ActionId: "ACTION_FEE"},
+		&forwardertypes.MsgPauseCrossChains{Signer: auth, ProtocolId: "PROTOCOL_CCTP", CounterpartyIds: []string{fmt.Sprint(r.Intn(9))}},
+		&adaptertypes.MsgUpdateParams{Signer: auth, Params: adaptertypes.Params{MaxPassthroughPayloadSize: uint32(1 + r.Intn(5000))}},
+	}
+	for _, p := range []string{"PROTOCOL_CCTP", "PROTOCOL_HYPERLANE", "PROTOCOL_INTERNAL"} {
+		msgs = append(msgs, &forwardertypes.MsgPauseProtocol{Signer: auth, ProtocolId: p}, &forwardertypes.MsgUnpauseProtocol{Signer: auth, ProtocolId: p})
+	}
+	outcome := func(m sdk.Msg) string {
+		br := s.N.Branch()
+		if err := s.adminOnBranch(br, m); err != nil {
+			return "refused"
+		}
+		return "ok " + digestStore(br.KVStore(s.N.App.GetKey("orbiter")))
+	}
+	for _, m := range msgs {
+		before := outcome(m)
+		_, err := s.N.SimulateForged(e.Impostor, e.Authority, 2_000_000, m)
+		s.Stats.Fault("forged_simulation_naming_the_authority")
+		if err == nil {
+			s.Stats.Probe("forged_simulation_ran_ok")
+		}
+		s.Stats.Count("rule:C10.forged-simulation-changes-nothing")
+		if after := outcome(m); after != before {
+			s.violate("C10", "only-authority", "behaviour-changed-by-a-forged-simulation msg="+sdk.MsgTypeURL(m),
+				fmt.Sprintf("%s naming the authority was simulated on the node by %s (no valid signature, nothing committed); the authority's own message gave %.12s before and %.12s afterwards", sdk.MsgTypeURL(m), e.Impostor.Addr, before, after))
+		}
+	}
+}
+
 func (s *Sim) auditImpostor(r *Rng) {
+	s.forgedSimulation(r)
 	e := s.Env
 	auth := e.Authority.Addr.String()
 	methods := orbiterMsgMethods()
